@@ -338,7 +338,7 @@ def c04_r5(ctx):
         endless = isinstance(last, ast.While) and isinstance(last.test, ast.Constant) and last.test.value is True and \
             not any(isinstance(x, ast.Break) for x in ast.walk(last))
         gal = norm.aliases(g_.node)
-        if name != "run" and rets and all(v is not None and norm.canon(v, gal).startswith("self.index.writer(") for v in rets) and endless:
+        if name != "run" and rets and all(v is not None and norm.canon(norm.inline_defs(v, g_.node), gal).startswith("self.index.writer(") for v in rets) and endless:
             getters.add(name)
     # helpers that make one attempt: every return is self.index.writer(...) or None (the caller tests the result)
     attempts = set()
@@ -346,7 +346,7 @@ def c04_r5(ctx):
         rets = [r.value for r in returns_of(g_)]
         gal = norm.aliases(g_.node)
         vals = [v for v in rets if not (v is None or (isinstance(v, ast.Constant) and v.value is None))]
-        if name != "run" and name not in getters and vals and all(norm.canon(v, gal).startswith("self.index.writer(") for v in vals):
+        if name != "run" and name not in getters and vals and all(norm.canon(norm.inline_defs(v, g_.node), gal).startswith("self.index.writer(") for v in vals):
             attempts.add(name)
 
     ral = norm.aliases(run.node)
